@@ -31,6 +31,14 @@ func IndexTable(db objects.Store, tblSum []byte, tbl *objects.Table, logger logr
 		if err != nil {
 			return fmt.Errorf("GetBlock: %v", err)
 		}
+		if len(blk) == 0 {
+			return fmt.Errorf("block %x is empty", sum)
+		}
+		for _, row := range blk {
+			if len(row) != len(tbl.Columns) {
+				return fmt.Errorf("block %x has a row of %d cells, table has %d columns", sum, len(row), len(tbl.Columns))
+			}
+		}
 		if len(tbl.PK) > 0 {
 			tblIdx[i] = slice.IndicesToValues(blk[0], tbl.PK)
 		} else {
